@@ -23,6 +23,7 @@ object (and the .gv files / inline SVG / table fallback):
 from __future__ import annotations
 
 import html
+import os
 import re
 
 from vfw import fordapi, site
@@ -241,6 +242,11 @@ def gen_model(ch: Chooser, excl=()):
     for k, g in enumerate(progs):          # one main program per file
         placement["program:" + g["name"]] = k
     nfiles = max(nfiles, len(progs))
+    fnames = [f"f{i}.f90" for i in range(nfiles)]
+    if nfiles >= 2 and "same_basename" not in excl and ch.bool(1, 4):
+        # two source files with one base name, in different directories (FORD tells them apart as util.f90, util.f90~2)
+        fnames[0], fnames[1] = "a/util.f90", "b/util.f90"
+        feats.add("same-basename-files")
     options = {
         "graph_maxdepth": ch.weighted([(3, 10000), (2, 1), (2, 2), (1, 3)]),
         "graph_maxnodes": ch.weighted([(4, BIG), (1, 1), (1, 2), (1, 3), (2, 5)]),
@@ -251,7 +257,7 @@ def gen_model(ch: Chooser, excl=()):
         "proc_internals": ch.bool(2, 3),
     }
     return {"mods": mods, "types": types, "procs": procs, "generics": generics, "mpis": mpis, "subs": subs,
-            "tops": tops, "progs": progs, "bds": bds, "placement": placement, "nfiles": nfiles, "options": options}, feats
+            "tops": tops, "progs": progs, "bds": bds, "placement": placement, "nfiles": nfiles, "fnames": fnames, "options": options}, feats
 
 
 # ----------------------------------------------------------------------------- rendering
@@ -426,7 +432,7 @@ def render(m):
             body = []
             for _, _, L in sorted(chunks[i], key=lambda c: (c[0], c[1])):
                 body += L + [""]
-            files[f"src/f{i}.f90"] = "\n".join(body)
+            files["src/" + m.get("fnames", [f"f{j}.f90" for j in range(nfiles)])[i]] = "\n".join(body)
     return files
 
 
@@ -452,7 +458,7 @@ class Ref:
             rel.setdefault(head, [])
 
         def fname(key):
-            return f"f{m['placement'][key]}.f90"
+            return m["fnames"][m["placement"][key]] if m.get("fnames") else f"f{m['placement'][key]}.f90"
 
         # ---- USE + ancestry
         for i, mod in enumerate(mods):
@@ -588,7 +594,7 @@ class Ref:
                 add(self.C, impl, node_of(c), "solid")
         for x in m["tops"]:
             n = "proc~" + x["name"]
-            self.labels[n] = plabel(fname("top:" + x["name"]), x["name"])
+            self.labels[n] = plabel(fname("top:" + x["name"]).rsplit("/", 1)[-1], x["name"])
             self.labels[x["name"]] = x["name"]
             self.C.setdefault(n, [])
             for c in visible_callees(x["calls"], set()):
@@ -612,7 +618,7 @@ class Ref:
         for f in used_files:
             n = "sourcefile~" + f
             self.F.setdefault(n, [])
-            self.labels[n] = f
+            self.labels[n] = f.rsplit("/", 1)[-1]
             self.meta[n] = {}
 
         def dep(a, b):
@@ -961,10 +967,15 @@ def check(case) -> Result:
             project = docs.project
             labels = exp["labels"]
             objs = {}
+            # files are known by their path below src (two files may share a base name; FORD numbers them)
+            alias = {}
+            for o in project.files:
+                rel = os.path.relpath(os.path.realpath(str(o.path)), os.path.realpath(str(root / "src"))).replace(os.sep, "/")
+                alias[ford_key(o)] = "sourcefile~" + rel
             for lst in (project.modules, project.submodules, project.types, project.procedures, project.submodprocedures,
                         project.programs, project.blockdata, project.files):
                 for o in lst:
-                    objs[ford_key(o)] = o
+                    objs[alias.get(ford_key(o), ford_key(o))] = o
             parsed = {}
             for key, graphs in exp["graphs"].items():
                 o = objs.get(key)
@@ -977,6 +988,8 @@ def check(case) -> Result:
                         res.fail(f"graph-missing:{attr}", f"{key} has no {attr}")
                         continue
                     nodes, edges = parse_dot(g.dot.body)
+                    nodes = {alias.get(k, k): v for k, v in nodes.items()}
+                    edges = [(alias.get(t, t), alias.get(h, h), st, lb) for t, h, st, lb in edges]
                     parsed[(key, attr)] = (nodes, edges, want)
                     compare(res, f"{attr}:{key}", want, nodes, edges, labels,
                             exp["f_optional"] if attr in ("afferentgraph", "efferentgraph") else ())
@@ -996,7 +1009,7 @@ def check(case) -> Result:
                         res.fail(f"table-unexpected:{attr}", f"{attr}:{key}: shown as a table although the first hop fits graph_maxnodes")
                     # real SVG: the nodes dot drew are the nodes of the DOT text
                     if "<svg" in (g.svg_src or ""):
-                        svg_nodes = sorted(html.unescape(x) for x in SVG_NODE.findall(g.svg_src))
+                        svg_nodes = sorted(alias.get(html.unescape(x), html.unescape(x)) for x in SVG_NODE.findall(g.svg_src))
                         if svg_nodes != sorted(nodes):
                             res.fail("svg-differs", f"{attr}:{key}: SVG nodes {svg_nodes} != DOT nodes {sorted(nodes)}")
                     if case.get("graph_dir"):
@@ -1041,6 +1054,8 @@ def check(case) -> Result:
             for name in ("usegraph", "typegraph", "callgraph", "filegraph"):
                 g = getattr(gm, name)
                 nodes, edges = parse_dot(g.dot.body)
+                nodes = {alias.get(k, k): v for k, v in nodes.items()}
+                edges = [(alias.get(t, t), alias.get(h, h), st, lb) for t, h, st, lb in edges]
                 for key in exp["nograph"]:
                     if key in nodes:
                         res.fail(f"graph-false-ignored:{name}", f"{key} has `graph: false` but is a node of the project-wide {name}")
